@@ -498,5 +498,12 @@ def r10_largest_subidentifier(chk):
     r1_number_classifier(chk, rule='C01.R10')
 
 
+
+def r11_generators_start_clean(chk):
+    """shared with C12.R2"""
+    from rules.C12 import r2_generator_reset
+    common.reuse(chk, r2_generator_reset, ('C12.R2',), 'C01.R11', 'both generators re-initialise, at the start of genCode, every attribute their handlers write and assign the per-call settings on every path (C12.R2): a stale import map or column / row list of the previous (possibly failed) module changes which module a parent name resolves to, hence the OIDs', floor=12)
+
+
 RULES = [r1_subidentifier_shapes, r2_genoid, r3_numeric, r4_trap, r5_fixpoint, r6_translate, r7_plumbing,
-         r7b_summary_not_aliased, r8_normalisation, r9_symbol_tables_keyed_by_module_name, r10_largest_subidentifier]
+         r7b_summary_not_aliased, r8_normalisation, r9_symbol_tables_keyed_by_module_name, r10_largest_subidentifier, r11_generators_start_clean]
